@@ -80,6 +80,9 @@ type Engine struct {
 	Deadline time.Time
 	DetCheck bool // execute every transition twice on independent rigs and compare (C20)
 	KeepAll  bool // keep every state (for S-GEN / S-QUERY export points)
+	// Known tells whether a violation signature is a listed known finding. A state that violates only known findings is
+	// still expanded: what is already on record must not hide what lies behind it.
+	Known func(sig string) bool
 
 	rig   *Rig
 	rig2  *Rig
@@ -89,11 +92,11 @@ type Engine struct {
 	States      int64
 	Transitions int64
 	SelfLoops   int64
-	Completed   int   // deepest fully expanded level
-	Exhaustive  bool  // all levels up to Depth completed
+	Completed   int  // deepest fully expanded level
+	Exhaustive  bool // all levels up to Depth completed
 	LevelSizes  []int
 	Wit         map[string]int64
-	Outcomes    map[string]int64 // action kind/outcome -> count
+	Outcomes    map[string]int64  // action kind/outcome -> count
 	Found       map[string]*Found // by signature
 	Hard        []string          // hard errors (nondeterminism etc.)
 	Samples     [][]string
@@ -258,8 +261,8 @@ func (e *Engine) expandLevel(frontier []int32, depth int) ([]int32, bool) {
 				e.SelfLoops++
 			}
 			id, ok := e.index[r.hash]
-			stepViol := len(r.viols) > 0
-			invViol := len(r.inv) > 0
+			stepViol := e.anyUnlisted(r.viols)
+			invViol := e.anyUnlisted(r.inv)
 			if !ok {
 				id = int32(len(e.nodes))
 				e.nodes = append(e.nodes, node{st: r.post, parent: r.parent, act: r.act, depth: int16(depth + 1)})
@@ -379,6 +382,15 @@ func (e *Engine) trace(id int32) []string {
 		rev[i], rev[j] = rev[j], rev[i]
 	}
 	return rev
+}
+
+func (e *Engine) anyUnlisted(vs []Violation) bool {
+	for _, v := range vs {
+		if e.Known == nil || !e.Known(v.Sig) {
+			return true
+		}
+	}
+	return false
 }
 
 func (e *Engine) record(vi Violation, at int32, act string) {
